@@ -358,3 +358,13 @@ func ConcSide(prop string) string {
 	}
 	return filepath.Join(d, "conc-"+prop+".json")
 }
+
+// ShmDir names a scratch directory on /dev/shm for this harness run. The name carries the ./check invocation's tag
+// (VERIF_RUN_TAG) so that the invocation can remove it even if the harness is killed.
+func ShmDir(kind string) string {
+	tag := os.Getenv("VERIF_RUN_TAG")
+	if tag == "" {
+		tag = "p"
+	}
+	return fmt.Sprintf("/dev/shm/verif-%s-%s-%d", kind, tag, os.Getpid())
+}
